@@ -26,11 +26,18 @@ CLAIMS = {
         "note": NOTE_COMMON + "Needed treats a known key's prerequisites as satisfied (what the code does; equals the literal reading on prerequisite-closed known sets, DESIGN §5 C12). The FxHashSet arguments are modelled as lists (membership only).",
         "technique": TECH,
     },
+    "C14": {
+        "category": "proof",
+        "design_ref": "DESIGN.md §5 C14, §4 S4",
+        "text": "Full for the model of the four maps (42 theorems): get-after-bind, other keys unchanged, conflict/same-value, retain = filter, stability over ALL operation histories (induction over the op list: c14_generic_stable, c14_str_stable, c14_mat_stable), 'get never invents a binding' (c14_generic_only_bound), extent characterisations (c14_str_extent, c14_mat_extent), start-key rules, representation invariants preserved by every history (c14_str_len, c14_mat_inv_bind, c14_mat_get_no_panic), default retain_keys succeeds and preserves get on prerequisite-closed sets whenever the start key is iterated first, is order-independent among such orders, and PANICS for an order starting with a bound non-start key (c14_*_retain_bad_order). Partial by nature: whether hashbrown iterates the start key first is a runtime fact (S4); the check observes the real iteration order on every retain_keys call (600+400 closed key sets quick) and reports a panic on a closed set as a violation. Rejected bind leaves the map unchanged: the model returns the pre-state and the harness re-reads every probe key from the real map after a failed bind.",
+        "note": NOTE_COMMON + "FxHashMap and BTreeMap share one association-list model (same code up to the container). retain_keys' key-set argument is modelled as the list in which the real set iterates (duplicates excluded by hypothesis order.count start <= 1).",
+        "technique": TECH,
+    },
 }
 
 NOT_APPLICABLE = [
     {"property_id": p, "reason": "not yet claimed in this round: model / theorems / correspondence stage under construction (see DESIGN.md §7 build order); no technique switch intended"}
-    for p in ["C01", "C02", "C03", "C04", "C05", "C06", "C07", "C08", "C09", "C10", "C11", "C14", "C15", "C17"]
+    for p in ["C01", "C02", "C03", "C04", "C05", "C06", "C07", "C08", "C09", "C10", "C11", "C15", "C17"]
 ]
 
 NOTES = "See DESIGN.md. Every check re-checks its Lean theorems (lake build + #print axioms audit), rebuilds the harness against /repo's working tree, runs the correspondence for the stages in the property's cone and evaluates the property's executable oracle on the implementation's outputs."
